@@ -330,3 +330,23 @@ def run(ctx):
         ctx.ob("R17.4", "_explicit_files|insert-normaliser|%s" % f.name, got == want and want is not None, f.loc(n),
                "keys are inserted after %s() but looked up after %s(): a path through a symlink (or otherwise non-canonical spelling) never matches" % (got, want)
                if got != want else "inserted and looked-up keys both go through %s()" % want)
+    canonical_whole_name(ctx)
+
+def canonical_whole_name(ctx):
+    """R17.6: once-only inclusion and `is this a command-line file` compare canonical names.  Two spellings of one file
+    are equal only if make_canonical() resolves the WHOLE name through realpath(): resolving the directory alone leaves
+    a header that is itself a symbolic link under its own name."""
+    db = ctx.db
+    ctx.rule("R17.6", "Filename::make_canonical() passes the whole file name (c_str() of *this) to realpath(), and takes the result as the new name")
+    f = db.fn("Filename::make_canonical")
+    calls = [c for c in f.walk() if c.get("k") == "call" and callee_short(c) == "realpath"]
+    if not calls:
+        ctx.broken("make_canonical: no realpath() call (other platform branch compiled?)")
+    for c in calls:
+        a0 = strip_casts(peel(c["a"][0])) if c.get("a") else None
+        whole = a0 is not None and a0.get("k") == "call" and callee_short(a0) == "c_str" and "this" in a0 and (strip_casts(peel(a0["this"])) or {}).get("k") in ("this", "un")
+        if whole:
+            t = strip_casts(peel(a0["this"]))
+            whole = t.get("k") == "this" or (t.get("k") == "un" and (strip_casts(peel(t.get("e"))) or {}).get("k") == "this")
+        ctx.ob("R17.6", "make_canonical|realpath-of-whole-name", bool(whole), f.loc(c), "realpath(%s, ...)" % (show(a0)[:40] if a0 is not None else "?"))
+
